@@ -138,3 +138,14 @@ claim("C13",
       "identity or namespace label order. The text is concrete per path; the solver's part is the exhaustive, non-redundant walk of the grammar.",
       TB, "symbolic-choice driven (CrossHair+z3) exhaustive walk of a document grammar through every reading route, compared pairwise",
       "DESIGN.md 3/C13")
+
+claim("C18",
+      "Bounded symbolic execution of the simulators with a symbolic random generator: every draw of expovariate/random/randint/choice/sample/"
+      "shuffle is a symbolic value constrained only by the method's range (reals on a 1e-6 grid so that no float artefacts arise), rates and "
+      "population sizes are concrete per shard so all arithmetic is linear. For every draw vector within the budget: exactly N extant leaves "
+      "with N distinct member taxa, bifurcating, well formed, all tips equidistant from the root (a linear identity in the symbolic waiting "
+      "times), Kingman trees one leaf per taxon and ultrametric, contained gene trees never join species before their divergence; the global "
+      "generator is a tripwire, and a second run fed the same draws must return the same tree.",
+      TB + " SymRng contract as stated in the evidence; paths needing more draws than the budget are outside the bound and counted.",
+      "symbolic execution (CrossHair+z3) of the simulators under a symbolic RNG stub (every draw a solver variable)",
+      "DESIGN.md 3/C18")
